@@ -130,6 +130,29 @@ func splitAddr(address string) (net.IP, int, error) {
 	return ip, port, nil
 }
 
+// NetResolveTCPAddr / NetResolveUDPAddr replace net.ResolveTCPAddr / net.ResolveUDPAddr in
+// instrumented code: the system resolver is a real, shared, uncontrolled component (and cannot be
+// used from inside a bubble); names are resolved by the simulated network's own table
+// (literal addresses, "localhost").
+func NetResolveTCPAddr(network, address string) (*net.TCPAddr, error) {
+	ip, port, err := splitAddr(address)
+	if err != nil {
+		return nil, &net.OpError{Op: "resolve", Net: network, Err: err}
+	}
+	if v4 := ip.To4(); v4 != nil {
+		ip = v4
+	}
+	return &net.TCPAddr{IP: ip, Port: port}, nil
+}
+
+func NetResolveUDPAddr(network, address string) (*net.UDPAddr, error) {
+	a, err := NetResolveTCPAddr(network, address)
+	if err != nil {
+		return nil, err
+	}
+	return &net.UDPAddr{IP: a.IP, Port: a.Port}, nil
+}
+
 func (n *Net) allocPortLocked() int {
 	n.nextPort++
 	return n.nextPort
